@@ -19,7 +19,7 @@ impl CoinSelection for NaiveSelector {
             if utxo.assets.contains_some(&pending) {
                 matched.insert(utxo.clone());
                 let to_include = utxo.assets.clone();
-                pending = pending - to_include;
+                pending = pending.saturating_sub(to_include);
             }
 
             if pending.is_empty_or_negative() {
